@@ -270,12 +270,16 @@ class Path(object):
         p.trace = list(self.trace)
         p.depth = self.depth
         p.ghost = dict(self.ghost)
+        p.tags = getattr(self, "tags", {})
         return p
 
-    def assume(self, b):
+    def assume(self, b, tag=None):
         if z3.is_true(b):
             return
         self.pc.append(b)
+        if tag:
+            self.tags = dict(getattr(self, "tags", {}))
+            self.tags[b.get_id()] = tag
 
     # python-side containers
     def new(self, kind, content, cls=None):
